@@ -21,7 +21,7 @@ for try in 1 2 3; do
   FAILS=$(echo "$OUT" | grep -E "^test .* FAILED" | grep -v -E "rng::xoshiro256::fill_bytes|rng::chacha::tests::test_fill_bytes")
   if echo "$OUT" | grep -q "^test result: ok"; then break; fi
   if [ -n "$FAILS" ]; then echo "$FAILS"; break; fi
-  echo "   (only the entropy-seeded 'too many zeroes' tests failed: flaky on the unchanged tree too; re-running)"
+  echo "   (only the entropy-seeded 'too many zeroes' tests failed: $(echo "$OUT" | grep -E "^test .* FAILED" | tr '\n' ' ') - flaky on the unchanged tree too; re-running)"
 done
 echo "== demo WITH the change"; cargo test --offline $FEATS --test demo 2>&1 | grep -E "^test result|error(\[|:)" | head -3
 cd /; git -C /repo worktree remove --force $W
